@@ -375,6 +375,71 @@ theorem reflected_div_number (q n : Desc) (hq : q.isQ = true) (hs : q.cls = .sca
   · have : (q.rank != 0) = true := by simp [hr0]
     simp [this, throw, throwThe, MonadExceptOf.throw] at h1
 
+/-! ### `**` and the Scalar math functions: class, kind, shape, rejection -/
+
+/-- **pow rule.** `Scalar ** e` for a unit-less Scalar base without denominator and an exponent that is a rank-0 unit-less
+    Scalar object: ValueError iff the LEADING shapes do not broadcast; otherwise a Scalar of the broadcast shape whose
+    kind is float when an integer exponent is negative, else the promoted kind (int ** int stays int). -/
+theorem powDispatch_rule (a b : Desc) (negInt : Bool) (ha : a.isQ = true) (hc : a.cls = .scalar)
+    (hu : a.units = none) (hd : a.denom = []) (hb : b.isQ = true) (hbc : b.cls = .scalar) (hbr : b.rank = 0)
+    (hbu : unitsIsUnitless b.units = true) :
+    powDispatch a b negInt = some (
+      match bcast a.shape b.shape with
+      | none => .error .valueError
+      | some out => .ok { cls := .scalar,
+                          kind := suitableDtype .scalar (if negInt then .float else promote a.kind b.kind),
+                          lead := out, numer := [], denom := [], plan := .ew false 0 0 0 0 }) := by
+  unfold powDispatch
+  simp [ha, hc, hu, hd, hb, hbc, hbr, hbu, bind, Except.bind, pure, Except.pure]
+  cases bcast a.shape b.shape <;> rfl
+
+/-- **pow rejects** denominators on the base, and exponents that are not scalar-like -/
+theorem powDispatch_rejects (a b : Desc) (negInt : Bool) (ha : a.isQ = true) (hc : a.cls = .scalar)
+    (hu : a.units = none) :
+    (a.denom ≠ [] → powDispatch a b negInt = some (.error .valueError)) ∧
+    (a.denom = [] → b.isQ = true → b.cls = .scalar → b.rank ≠ 0 → powDispatch a b negInt = some (.error .valueError)) := by
+  constructor
+  · intro hd
+    unfold powDispatch
+    simp [ha, hc, hu, hd, bind, Except.bind, throw, throwThe, MonadExceptOf.throw]
+  · intro hd hb hbc hbr
+    unfold powDispatch
+    simp [ha, hc, hu, hd, hb, hbc, hbr, bind, Except.bind, throw, throwThe, MonadExceptOf.throw]
+
+/-- **math functions.** An accepted call returns a Scalar of the operand's leading shape; every function except `sign`
+    returns floats, `sign` keeps the kind; an operand with a denominator is never accepted. -/
+theorem mathFn_rule (f : MathFn) (a : Desc) (r : Res) (h : mathFn f a = some (.ok r)) :
+    r.cls = .scalar ∧ r.lead = a.shape ∧ r.numer = [] ∧ r.denom = [] ∧ a.denom = [] ∧
+    (f ≠ .sign → r.kind = .float) ∧ (f = .sign → r.kind = a.kind) := by
+  unfold mathFn at h
+  split at h
+  · cases h
+  · cases f <;> simp only [] at h <;>
+      (first
+        | (split at h
+           · cases h
+           · simp only [Option.some.injEq, pure, Except.pure, Except.ok.injEq] at h
+             rename_i hd
+             subst h
+             simp at hd
+             simp [hd.1])
+        | (simp only [Option.some.injEq] at h
+           split at h
+           · cases h
+           · first
+             | (split at h
+                · cases h
+                · simp only [pure, Except.pure, Except.ok.injEq] at h
+                  rename_i hd _
+                  subst h
+                  simp at hd
+                  simp [hd])
+             | (simp only [pure, Except.pure, Except.ok.injEq] at h
+                rename_i hd
+                subst h
+                simp at hd
+                simp [hd])))
+
 /-! ### the whole operator table: dispatch = specification -/
 
 /-- **dispatch_spec.** For every operator, every ordered pair of well-formed operands (polymath object of any class,
